@@ -602,6 +602,13 @@ func (f *SQLFormatter) formatJoin(join *ast.JoinClause) error {
 
 // formatExpression formats SQL expressions
 func (f *SQLFormatter) formatExpression(expr ast.Expression) error {
+	// Expression nodes know how to serialise themselves with the parentheses,
+	// quoting and operand forms that re-parse to the same tree; the switch below
+	// only remains for node types without an SQL() method.
+	if s, ok := expr.(interface{ SQL() string }); ok {
+		f.builder.WriteString(s.SQL())
+		return nil
+	}
 	switch e := expr.(type) {
 	case *ast.Identifier:
 		if e.Table != "" {
